@@ -599,3 +599,67 @@ func (b *bridgeHist) refreshGroup() bool {
 	b.group = g
 	return true
 }
+
+// wdBurst is a directed scenario shared by C06 and the combined histories: n withdrawals are requested in one block,
+// processed as one batch, the paying transaction is mined and its block voted, and the batch is finalised - in a block
+// that also asks for `refunds` withdrawals to undecodable addresses. More than 8 'paid' notices are then due at once,
+// next to 'refund' notices that compete for the same per-block cap of 8.
+type wdBurst struct {
+	at, n, refunds int
+	ids            []uint64
+	proc           *procM
+	final          bool
+}
+
+func (u *wdBurst) step(b *bridgeHist, wm *wdMon, blk int, seed uint64, idx int) {
+	lh := b.lh
+	switch d := blk - u.at; {
+	case d == 0:
+		u.ids = nil
+		for k := 0; k < u.n; k++ {
+			addr, _ := world.P2WPKH(world.Derive(seed, "c06burst", int(wm.next)*7+idx)[:20], regtest)
+			b.bridgeReq.Withdraws = append(b.bridgeReq.Withdraws, &goattypes.WithdrawalRequest{Id: wm.next, Amount: 60_000, TxPrice: 40, Address: addr})
+			u.ids = append(u.ids, wm.next)
+			wm.next++
+		}
+		lh.logf("EL: burst of %d withdrawals", u.n)
+	case d == 1:
+		if op := wm.processOp(u.ids, ""); op != nil {
+			b.ops = append(b.ops, op)
+		}
+	case d == 2:
+		for _, p := range wm.procs {
+			if !p.Done && len(p.Ids) == len(u.ids) && len(u.ids) > 0 && p.Ids[0] == u.ids[0] {
+				u.proc = p
+				cd := p.Cands[0]
+				var tx wireMsgTx
+				if err := tx.DeserializeNoWitness(bytes.NewReader(cd.Raw)); err == nil {
+					blkb := b.bc.Mine([]*wireMsgTx{b.bc.CoinbaseTx(b.bc.Tip + 1), b.bc.FillerTx(), &tx})
+					cd.Height, cd.Index = blkb.Height, 2
+				}
+			}
+		}
+		if op := b.hashesOp("next"); op != nil {
+			b.ops = append(b.ops, op)
+		}
+	case d >= 3 && d <= 12:
+		if u.proc != nil && !u.proc.Done && u.proc.Cands[0].Height != 0 {
+			if u.proc.Cands[0].Height > b.votedTip {
+				if op := b.hashesOp("next"); op != nil {
+					b.ops = append(b.ops, op)
+				}
+			} else if !u.final {
+				if op := wm.finalizeOp(u.proc, u.proc.Cands[0], ""); op != nil {
+					b.ops = append(b.ops, op)
+					u.final = true
+					for k := 0; k < u.refunds; k++ {
+						b.bridgeReq.Withdraws = append(b.bridgeReq.Withdraws, &goattypes.WithdrawalRequest{Id: wm.next, Amount: 40_000, TxPrice: 3, Address: fmt.Sprintf("junk-burst-%d", wm.next)})
+						wm.next++
+					}
+					lh.logf("finalising the %d-withdrawal batch together with %d refunds", u.n, u.refunds)
+					lh.c.Count("withdrawal_bursts_finalised", 1)
+				}
+			}
+		}
+	}
+}
